@@ -123,6 +123,29 @@ inline void raceR(const void* p, const char* label = "payload") {
   sim_race_access(p, 1, 0, label);
 }
 
+// A "this work has finished" flag of an oracle that doubles as the work's output for the race check:
+// setting it declares a write, observing it set declares a read (observing it clear declares nothing:
+// then the oracle is about to complain anyway, or nothing was promised yet).
+struct DoneFlag {
+  bool v = false;
+  char cell = 0;
+  const char* label = "work-output";
+  DoneFlag() {}
+  DoneFlag(const DoneFlag&) = default;
+  DoneFlag& operator=(const DoneFlag&) = default;
+  DoneFlag& operator=(bool b) {
+    if (b)
+      raceW(&cell, label);
+    v = b;
+    return *this;
+  }
+  operator bool() const {
+    if (v)
+      raceR(&cell, label);
+    return v;
+  }
+};
+
 // Objects that must outlive the workload function (detached work may still touch them) are
 // allocated here and stay reachable from a global list, so a leak checker does not blame them.
 void keepAlive(void* p);
